@@ -34,7 +34,7 @@ ASSUMPTIONS = [
     "tag spelling variants that normalise to one key are merged into one client by design; the tags namespace only demands that every OPERATION "
     "stays on some client and that module/class/attribute names are valid and consistent in number",
 ]
-BOUND = {"quick": "strings<=4 symbols (16105) + keyword table; namespace tuples from strings<=2 in 9 namespaces + 16 invented-name cases + long names (60-180 shared characters)",
+BOUND = {"quick": "strings<=4 symbols (16105) + keyword table; namespace tuples from strings<=2 in 9 namespaces + 141 documents whose method names the generator derives itself (separator-variant paths, FastAPI ids, two-tag layouts; per naming strategy) + 16 invented-name cases + long names (60-180 shared characters)",
          "thorough": "strings<=5 symbols (177156) + keyword table; namespace tuples from strings<=3"}
 
 ALPHA = ["a", "B", "1", "_", "-", " ", "$", "é", "名", "²", "٣"]
@@ -152,12 +152,73 @@ def cases(tier, seed):
     for owner in INVENTED_OWNERS:
         for same in (False, True):
             out.append({"kind": "ns", "ns": "invented", "names": [owner, "same-values" if same else "different-values"]})
+    for spec in derived_specs():
+        out.append({"kind": "ns", "ns": "opids-derived", "names": spec})
     for ns in ("props", "params", "schemas", "enum", "opids", "opids-tagged", "tags"):
         seen = set()
         pool = [s for s in pools[ns] if not (s in seen or seen.add(s))]
         for names in expand_plan({"ns": ns, "strings": pool}):
             out.append({"kind": "ns", "ns": ns, "names": names})
     return out
+
+
+def derived_specs():
+    """method names the generator DERIVES itself or places into several clients. Each entry is a list [mode, ...]:
+    ["paths", strategy, segA, segB]      two GET operations without operationId on /segA and /segB (segments differ only in separators / case)
+    ["fastapi", strategy, idA, idB]      two operations whose FastAPI-style ids clean to one name (paths /details/details, /details/items ...)
+    ["multitag", idA, idB, layout]       idA carries two tags, idB shares one of them (every order / subset layout)"""
+    out = []
+    segs = ["user-data", "user_data", "user.data", "userData", "UserData", "userdata"]
+    for strat in ("operationId", "path", "clean"):
+        for a, b in itertools.combinations(segs, 2):
+            out.append(["paths", strat, a, b])
+        for a, b in (("create_details_details_post", "create_details_items_post"), ("read_item_items__item_id__get", "read_item_things__item_id__get"),
+                     ("list_users_users_get", "list_users_admin_users_get"), ("get_x_api_v1_x_get", "get_x_api_v2_x_get")):
+            out.append(["fastapi", strat, a, b])
+    ids = ["get_user", "getUser", "GetUser", "get-user"]
+    for a, b in itertools.permutations(ids, 2):
+        for layout in ("UA|A", "UA|U", "AU|A", "AU|U", "UA|AU", "UA|UA", "U|A"):
+            out.append(["multitag", a, b, layout])
+    return out
+
+
+def derived_doc(spec):
+    resp = {"204": {"description": "d"}}
+    mode = spec[0]
+    if mode == "paths":
+        _, strat, a, b = spec
+        paths = {f"/{a}": {"get": {"responses": resp}}, f"/{b}": {"get": {"responses": resp}}}
+        return sandbox.base_doc(None, paths), strat, {"default": [f"/{a}", f"/{b}"]}
+    if mode == "fastapi":
+        _, strat, a, b = spec
+
+        def route(i):   # the route FastAPI would have generated this id from: <name>_<route>_<method>
+            import re
+
+            m = re.match(r"^[a-z]+_[a-z]+_(.*)_(get|post)$", i)
+            r = "/" + m.group(1).replace("__item_id__", "/{item_id}").replace("_", "/")
+            return r.replace("//", "/"), m.group(2)
+
+        (ra, ma), (rb, mb) = route(a), route(b)
+
+        def opobj(i, r):
+            o = {"operationId": i, "responses": resp}
+            if "{item_id}" in r:
+                o["parameters"] = [{"name": "item_id", "in": "path", "required": True, "schema": {"type": "string"}}]
+            return o
+
+        paths = {ra: {ma: opobj(a, ra)}}
+        paths.setdefault(rb, {})[mb] = opobj(b, rb)
+        return sandbox.base_doc(None, paths), strat, {"default": [ra, rb]}
+    _, a, b, layout = spec
+    tagsets = [[{"U": "Users", "A": "Admin"}[c] for c in part] for part in layout.split("|")]
+    paths = {"/r0": {"get": {"operationId": a, "tags": tagsets[0], "responses": resp}},
+             "/r1": {"get": {"operationId": b, "tags": tagsets[1], "responses": resp}}}
+    want = {}
+    for url, ts in (("/r0", tagsets[0]), ("/r1", tagsets[1])):
+        for t in ts:
+            want.setdefault(t.lower(), []).append(url)
+    return sandbox.base_doc(None, paths), "operationId", want
 
 
 INVENTED_OWNERS = ["op-param-array", "op-param-scalar", "path-item-param-array", "path-item-param-scalar", "op-vs-path-item-param", "schema-prop", "schema-array-prop",
@@ -552,6 +613,48 @@ def run_ns_tuple(ns, names):
                     urls.add(n.value)
         if len(urls) != len(names) and len(mn) == len(names):
             bad("merged", "two methods address the same path", f"urls={urls}")
+        return F, "checked"
+    if ns == "opids-derived":
+        doc, strat, want = derived_doc(names)
+        with sandbox.scratch() as d:
+            root = os.path.join(d, "proj")
+            files_, err = sandbox.generate(doc, root, output_package="cli", naming=strat)
+            if err is not None:
+                return F, "rejected:" + type(err).__name__
+            files = {}
+            for pth in sandbox.py_files(os.path.join(root, "cli", "endpoints")):
+                with open(pth, encoding="utf-8") as f:
+                    files[os.path.basename(pth)] = f.read()
+        for tag, urls_want in want.items():
+            src = files.get(tag + ".py")
+            if src is None:
+                bad("lost", "endpoint file missing", f"{tag}.py not in {sorted(files)}")
+                continue
+            tree, se = _parse(src)
+            if tree is None:
+                bad("syntax", _norm(se.msg), f"{tag}.py: {se.msg}")
+                continue
+            for node in ast.walk(tree):
+                if isinstance(node, ast.ClassDef) and node.name.endswith("Client") and not node.name.endswith("Protocol") \
+                        and not any(isinstance(b_, ast.Name) and b_.id == "Protocol" for b_ in node.bases):
+                    meths = [st for st in node.body if isinstance(st, ast.AsyncFunctionDef) and not st.name.startswith("__")
+                             and not any(isinstance(dec, ast.Name) and dec.id == "overload" for dec in st.decorator_list)]
+                    mn = [m.name for m in meths]
+                    if len(mn) != len(set(mn)):
+                        bad("merged", "duplicate method identifier", f"{node.name}: methods={mn}")
+                    elif len(mn) != len(urls_want):
+                        bad("dropped", "method count != operation count", f"{node.name}: methods={mn} for operations {urls_want}")
+                    for m in mn:
+                        if not ident_ok(m):
+                            bad("invalid", classify_bad(m), f"method {m!r}")
+                    urls = set()
+                    for m in meths:
+                        for n_ in ast.walk(m):
+                            if isinstance(n_, ast.Constant) and isinstance(n_.value, str) and n_.value.startswith("/"):
+                                urls.add(n_.value.split("{")[0])
+                    missing = [u for u in urls_want if u.split("{")[0] not in urls]
+                    if missing and len(mn) == len(set(mn)) == len(urls_want):
+                        bad("merged", "two methods address the same path", f"{node.name}: urls={sorted(urls)} want {urls_want}")
         return F, "checked"
     if ns == "invented":
         owner, same = names[0], names[1] == "same-values"
